@@ -170,6 +170,13 @@ func cellOp(a *aspec.ASpec, idx int, cells []declCell) {
 			sch = aspec.Schema{K: "array", Items: &s}
 		}
 		p := aspec.Param{In: d.In, Name: cell.Name, Req: d.Req, Schema: sch}
+		// parameter attributes that leave the lexical space of the type alone (allowEmptyValue permits the bare key as a
+		// way of writing a value the type has - it does not add the empty lexeme to integers), in turn
+		if d.In == "query" {
+			p.Attrs = []map[string]any{nil, {"allowEmptyValue": true}, {"allowReserved": true}, {"style": "form", "explode": true}, {"deprecated": true}, {"allowEmptyValue": true, "allowReserved": true}}[(idx+ci)%6]
+		} else if d.In == "header" {
+			p.Attrs = []map[string]any{nil, {"style": "simple"}, {"deprecated": true}}[(idx+ci)%3]
+		}
 		if cell.Via == "paramRef" {
 			name := fmt.Sprintf("Par%dx%d", idx, ci)
 			a.Parameters = append(a.Parameters, aspec.NamedParam{Name: name, Param: p})
